@@ -13,6 +13,7 @@ type fgen struct {
 	r   *rand.Rand
 	n   int
 	tag string
+	skipProb, parProb, badProb float64
 }
 
 func newFgen(seed int64, tag string) *fgen { return &fgen{r: rand.New(rand.NewSource(seed)), tag: tag} }
@@ -272,6 +273,7 @@ func stdConfigs() map[string]*Cfg {
 		"uf": {Dir: sp("@/snaps"), Update: bp(false)},
 		"e":  {Dir: sp("@/snaps"), Filename: sp("ext"), Ext: sp(".txt")},
 		"d2": {Dir: sp("@/other/deep")},
+		"bad": {Dir: sp("@/blocker/snaps")}, // "blocker" is a regular file: nothing can be created below it
 	}
 }
 
@@ -291,6 +293,8 @@ func procSpec(mode string) ProcSpec {
 		return ProcSpec{Color: true}
 	case "ci+update":
 		return ProcSpec{CI: "CI", UpdVar: sp("true")}
+	case "ci+clean":
+		return ProcSpec{CI: "GITHUB_ACTIONS", UpdVar: sp("clean")}
 	}
 	return ProcSpec{}
 }
